@@ -399,6 +399,49 @@ func (b *Body) indexSyntax(l *Ledger) {
 	if n == 0 {
 		l.add("R-TOKEN", b.Name, "index syntax: integer conversions of reference tokens", "", Undecided, "no strconv conversion found in the library body", false)
 	}
+	b.noHandWrittenDecimal(l)
+}
+
+// noHandWrittenDecimal (R-TOKEN): the library converts no digits itself. strconv reports a
+// number that does not fit an int (and the methods turn that into "no such element"); a loop
+// of the library's own that accumulates value*10 + digit wraps around silently, so the token
+// 18446744073709551616 addresses element 0. Any multiplication by ten that feeds a loop-carried
+// value in the library body is therefore reported.
+func (b *Body) noHandWrittenDecimal(l *Ledger) {
+	key := "index syntax: digits are converted by strconv, not accumulated by the library (overflow is reported, not wrapped)"
+	bad := ""
+	for _, fn := range b.srcFuncs(b.Lib) {
+		allInstrs(fn, func(i ssa.Instruction) {
+			bo, ok := i.(*ssa.BinOp)
+			if !ok || bo.Op != token.MUL {
+				return
+			}
+			ten := false
+			for _, o := range []ssa.Value{bo.X, bo.Y} {
+				if k, isK := intConst(o); isK && k == 10 {
+					ten = true
+				}
+			}
+			if !ten || innermostLoopHeader(bo.Block()) == nil {
+				return
+			}
+			// loop carried: one operand is a phi of the loop (through conversions)
+			carried := false
+			for _, o := range []ssa.Value{bo.X, bo.Y} {
+				if _, isPhi := unwrapConv(o).(*ssa.Phi); isPhi {
+					carried = true
+				}
+			}
+			if carried {
+				bad = "a running value is multiplied by ten inside a loop at " + b.posOf(bo) + " in " + fname(fn) + ": a decimal conversion of the library's own, which wraps around for tokens beyond the integer range instead of failing"
+			}
+		})
+	}
+	if bad != "" {
+		l.add("R-TOKEN", b.Name, key, "", Violated, bad, true)
+	} else {
+		l.add("R-TOKEN", b.Name, key, "", Discharged, "no loop-carried multiplication by ten in the library body", true)
+	}
 }
 
 // isIndexParser: strconv.Atoi, or a library function (string) (int, error) built on it — the
